@@ -22,10 +22,11 @@ pub fn j_table(which: u64, leap: &LeapTable, out: &mut Local) {
                 if all.iter().filter(|l| l.announced_by_iers).any(|l| l.timestamp_tai_s.fract() != 0.0 || l.delta_at.fract() != 0.0) {
                     return Err("non-integral IERS entry".into());
                 }
+                // entries not announced by IERS (the SOFA pre-1972 values today): the statement only requires that they
+                // are not IERS entries, i.e. unflagged and before 1972-01-01; their number and values are not pinned
                 let other: Vec<(i64, f64)> = all.iter().filter(|l| !l.announced_by_iers).map(|l| (l.timestamp_tai_s as i64, l.delta_at)).collect();
-                let want: Vec<(i64, f64)> = SOFA_TS.iter().copied().zip(SOFA_DAT.iter().copied()).collect();
-                if other != want {
-                    return Err(format!("non-IERS entries differ from the 14 SOFA entries: {other:?}"));
+                if other.iter().any(|(ts, d)| *ts >= leap.entries[0].0 || *d >= 10.0 || *d < 0.0) {
+                    return Err(format!("an entry not announced by IERS lies in the IERS era or carries an IERS-sized offset: {other:?}"));
                 }
                 // sorted by timestamp, all non-IERS entries before 1972
                 if all.windows(2).any(|w| w[0].timestamp_tai_s >= w[1].timestamp_tai_s) {
@@ -76,7 +77,7 @@ pub fn j_table(which: u64, leap: &LeapTable, out: &mut Local) {
             out.ok(42, true, which);
             out.sample("c06.table", args, note, true);
         }
-        Ok(Err(e)) => out.viol("c06.table", format!("table-{which}-wrong"), args, "the 28 IERS entries (+14 SOFA, unflagged)".into(), e),
+        Ok(Err(e)) => out.viol("c06.table", format!("table-{which}-wrong"), args, "the 28 IERS entries (+ unflagged pre-1972 entries)".into(), e),
         Err(p) => out.viol("c06.table", format!("panic:{}", p.class()), args, "no panic".into(), format!("{} {}", p.loc, p.msg)),
     }
 }
@@ -206,24 +207,17 @@ pub fn j_accessor(c: i128, leap: &LeapTable, out: &mut Local) {
                 out.dc(3);
                 return;
             }
-            let want_all: Option<f64> = if want_iers.is_some() {
-                want_iers
-            } else {
-                let mut w = None;
-                for (k, ts) in SOFA_TS.iter().enumerate() {
-                    if c >= *ts as i128 * NS {
-                        w = Some(SOFA_DAT[k]);
-                    }
-                }
-                w
+            // with the non-IERS entries included the answer is pinned only in the IERS era (same as IERS-only); before
+            // 1972 it may be None or any pre-IERS offset below 10 s
+            let all_ok = match want_iers {
+                Some(_) => b == want_iers,
+                None => b.map(|x| (0.0..10.0).contains(&x)).unwrap_or(true),
             };
-            // within 1 us below a SOFA timestamp the non-IERS answer is not pinned by the statement
-            let sofa_edge = SOFA_TS.iter().any(|ts| (c - *ts as i128 * NS).abs() < 1000);
             if a != want_iers {
                 let rel = if near_entry(leap, c, 1).is_some() { "within-1s-of-entry" } else { "elsewhere" };
                 out.viol("c06.accessor", format!("iers-only-wrong,{rel}"), args, format!("{want_iers:?}"), format!("{a:?}"));
-            } else if b != want_all && !sofa_edge {
-                out.viol("c06.accessor", "all-entries-wrong".into(), args, format!("{want_all:?}"), format!("{b:?}"));
+            } else if !all_ok {
+                out.viol("c06.accessor", "all-entries-wrong".into(), args, format!("{want_iers:?} in the IERS era, None or < 10 s before"), format!("{b:?}"));
             } else if i != want_iers.unwrap_or(0.0) as i32 {
                 out.viol("c06.accessor", "leap_seconds_iers-wrong".into(), args, format!("{want_iers:?}"), format!("{i}"));
             } else {
